@@ -184,4 +184,99 @@ example :
       simp at this
     · rfl
 
+/-! ### the whole loop -/
+
+/-- what a scan does, as data: which (match, arm) pairs are selected, in order, and how it ends. Computed from the
+regex oracle alone (no graph, no variables): `n` bounds the number of iterations (any `n > len - i` is enough). -/
+inductive ScanPlan where
+  | endOfInput                                   -- offset reached the end: no poll, done
+  | noMatch                                      -- poll; no arm matches any more: done
+  | fail (f : Fail)                              -- poll; collecting failed (empty match, oracle)
+  | emptyMatch                                   -- poll; the selected match is empty (guard)
+  | badArm                                       -- unreachable: selected index outside the arms
+  | step (m : RMatch) (k : Nat) (rest : ScanPlan) -- poll; run arm k on m; continue after it
+  | outOfBound                                   -- `n` was too small
+
+def scanPlan (o : Oracle) (subject : String) (arms : List (String × List Stmt × Loc)) : Nat → Nat → ScanPlan
+  | 0, _ => .outOfBound
+  | n + 1, i =>
+    if i < subject.utf8ByteSize then
+      match scanCollect o subject i arms 0 with
+      | .error f => .fail f
+      | .ok ms =>
+        match scanBest ms with
+        | none => .noMatch
+        | some (m, k) =>
+          if (arms[k]?).isSome then
+            if 0 < m.stop then .step m k (scanPlan o subject arms n (i + m.stop))
+            else .emptyMatch
+          else .badArm
+    else .endOfInput
+
+/-- executing a plan: the effects of the loop, given the plan -/
+def runPlan (cfg : Cfg) (fuel : Nat) (env : Env) (arms : List (String × List Stmt × Loc)) : ScanPlan → SM Unit
+  | .endOfInput => pure ()
+  | .noMatch => Prog.pollP "processing scan matches" >>= fun _ => pure ()
+  | .fail f => Prog.pollP "processing scan matches" >>= fun _ => Prog.failP f
+  | .emptyMatch => Prog.pollP "processing scan matches" >>= fun _ => Prog.failP (.err (.base .emptyRegexCapture ""))
+  | .badArm => Prog.pollP "processing scan matches" >>= fun _ => Prog.panicAt "scan:arm index"
+  | .outOfBound => Prog.failP .outOfFuel
+  | .step m k rest =>
+    Prog.pollP "processing scan matches" >>= fun _ => do
+      pushFrame
+      execBlock cfg fuel { env with caps := capsOf m } (.scanArm (armRegex arms k)) (armBody arms k)
+      popFrame
+      runPlan cfg fuel env arms rest
+
+/-- **The whole loop.** The strict scan loop is exactly the execution of its plan: the arms run are the
+lexicographic-minimum selections at successive offsets, each offset right after the previous match. -/
+theorem C10_loop_is_plan (cfg : Cfg) (fuel : Nat) (env : Env) (arms : List (String × List Stmt × Loc))
+    (subject : String) (n i : Nat) (hn : subject.utf8ByteSize - i < n) :
+    scanLoop cfg fuel env arms subject i = runPlan cfg fuel env arms (scanPlan cfg.oracle subject arms n i) := by
+  induction n generalizing i with
+  | zero => omega
+  | succ n ih =>
+    by_cases hi : i < subject.utf8ByteSize
+    · rw [C10_iteration cfg fuel env arms subject i hi]
+      simp only [scanPlan, hi, if_true]
+      cases hc : scanCollect cfg.oracle subject i arms 0 with
+      | error f => simp [runPlan]
+      | ok ms =>
+        simp only
+        cases hb : scanBest ms with
+        | none => simp [runPlan]
+        | some p =>
+          obtain ⟨m, k⟩ := p
+          simp only
+          by_cases hk : (arms[k]?).isSome
+          · simp only [hk, if_true]
+            by_cases hm : 0 < m.stop
+            · simp only [hm, if_true, runPlan]
+              rw [ih (i + m.stop) (by omega)]
+            · simp [hm, runPlan]
+          · simp [hk, runPlan]
+    · rw [C10_stops_at_end cfg fuel env arms subject i hi]
+      simp [scanPlan, hi, runPlan]
+
+/-- the plan never needs more iterations than there are bytes left -/
+theorem C10_plan_bound_suffices (o : Oracle) (subject : String) (arms : List (String × List Stmt × Loc)) (n i : Nat)
+    (hn : subject.utf8ByteSize - i < n) : ∀ p, scanPlan o subject arms n i = p → p ≠ .outOfBound := by
+  induction n generalizing i with
+  | zero => omega
+  | succ n ih =>
+    intro p hp
+    simp only [scanPlan] at hp
+    split at hp
+    · split at hp
+      · subst hp; simp
+      · split at hp
+        · subst hp; simp
+        · split at hp
+          · split at hp
+            · subst hp; simp
+            · subst hp; simp
+          · subst hp; simp
+    · subst hp; simp
+
+
 end C10
